@@ -130,6 +130,24 @@ def handle (fn : String) : Handler := fun a impl =>
     let d := (a + 2^(64*n) - b) % 2^(64*n)
     some (fR (fun (r : List Nat × Nat) => s!"{fList r.1}/{r.2}") (subUint x y n),
           s!"{fList (fromNat n d)}/{if b > a then 1 else 0}")
+  | "add_uint_carry", [x, y, c, n] =>
+    -- `add_uint_carry(_inplace)`: operands shorter than the result are zero-extended, carry-in 0/1
+    let x := pList x; let y := pList y; let c := pNat c; let n := pNat n
+    let s := toNat (x.take n) + toNat (y.take n) + c
+    let r := addLimbs n x y c
+    some (s!"{fList r.1}/{r.2}", specIf (c ≤ 1) s!"{fList (fromNat n s)}/{s / 2^(64*n)}")
+  | "sub_uint_borrow", [x, y, c, n] =>
+    let x := pList x; let y := pList y; let c := pNat c; let n := pNat n
+    let a := toNat (x.take n); let b := toNat (y.take n) + c
+    let r := subLimbs n x y c
+    some (s!"{fList r.1}/{r.2}", specIf (c ≤ 1) s!"{fList (fromNat n ((a + 2^(64*n) - b) % 2^(64*n)))}/{if b > a then 1 else 0}")
+  | "uint_pred", [k, x, y] =>
+    -- comparison predicates (`is_less_than_uint` …): the shorter operand is zero-extended
+    let x := pList x; let y := pList y
+    let c := compareUint x y; let a := toNat x; let b := toNat y
+    let pick (lt eq gt : Bool) : Bool := match k with
+      | "lt" => lt | "le" => lt || eq | "gt" => gt | "ge" => gt || eq | _ => eq
+    some (fBool (pick (c < 0) (c == 0) (c > 0)), fBool (pick (a < b) (a == b) (a > b)))
   | "add_uint_u64", [x, y, n] =>
     let x := pList x; let y := pNat y; let n := pNat n
     let s := toNat (x.take n) + y
